@@ -113,7 +113,10 @@ func javaFullMulti(c map[string]json.RawMessage, dir string) (interface{}, error
 				root := n.Package + "." + n.NodeName + "." + n.Functions[0].Name
 				d1 := call.NewCallGraph().Analysis(root, nodes, false)
 				d2 := call.NewCallGraph().Analysis(root, nodes, false)
-				r["callTwice"] = d1 == d2
+				// with the reverse part (`coca call -l`) too
+				l1 := call.NewCallGraph().Analysis(root, nodes, true)
+				l2 := call.NewCallGraph().Analysis(root, nodes, true)
+				r["callTwice"] = d1 == d2 && l1 == l2
 				r1 := rcall.NewRCallGraph().Analysis(root, nodes, func(map[string][]string) {})
 				r2 := rcall.NewRCallGraph().Analysis(root, nodes, func(map[string][]string) {})
 				r["rcallTwice"] = r1 == r2
